@@ -2,7 +2,8 @@ package template
 
 import (
 	"go/types"
-	"strings"
+	"unicode"
+	"unicode/utf8"
 )
 
 // Var represents a method variable/parameter.
@@ -166,5 +167,20 @@ func basicTypeVarName(b *types.Basic) string {
 	return "v"
 }
 
-func capitalise(s string) string   { return strings.ToUpper(s[:1]) + s[1:] }
-func deCapitalise(s string) string { return strings.ToLower(s[:1]) + s[1:] }
+// capitalise and deCapitalise change the case of the first character (not
+// the first byte: type names may start with a non-ASCII letter).
+func capitalise(s string) string {
+	r, n := utf8.DecodeRuneInString(s)
+	if r == utf8.RuneError {
+		return s
+	}
+	return string(unicode.ToUpper(r)) + s[n:]
+}
+
+func deCapitalise(s string) string {
+	r, n := utf8.DecodeRuneInString(s)
+	if r == utf8.RuneError {
+		return s
+	}
+	return string(unicode.ToLower(r)) + s[n:]
+}
